@@ -18,23 +18,49 @@ The model never looks at the implementation's rounds or votes.
 *******************************************************************************/
 
 type refDag struct {
-	n       int
-	creator []int
-	index   []int
-	selfP   []int
-	otherP  []int
-	hash    []string
-	byCI    [][]int   // creator -> index -> event id
-	la      [][]int32 // event id -> creator -> highest ancestor index (-1: none); an event is its own ancestor
-	round   []int
-	witness []bool
-	wits    [][]int // round -> witness ids (in creation order)
-	deep    bool    // computeFame also checks the unanimity lemma
-	coords  bool    // strongly-see as babble's event coordinates compute it (see coordCount)
+	n          int
+	creator    []int
+	index      []int
+	selfP      []int
+	otherP     []int
+	hash       []string
+	byCI       [][]int   // creator -> index -> event id
+	la         [][]int32 // event id -> creator -> highest ancestor index (-1: none); an event is its own ancestor
+	round      []int
+	witness    []bool
+	wits       [][]int // round -> witness ids (in creation order)
+	deep       bool    // computeFame also checks the unanimity lemma and looks for conflicting decisions
+	weakQuorum bool    // see computeFame
+	coords     bool    // strongly-see as babble's event coordinates compute it (see coordCount)
+	// members(r): validator set (creator ids) of round r; nil: everybody, always
+	members func(r int) []int
+	all     []int
+	heads   []int // addPlays: current head per creator
+}
+
+// setOf returns the validator set of round r.
+func (d *refDag) setOf(r int) []int {
+	if d.members != nil {
+		return d.members(r)
+	}
+	return d.all
+}
+
+func inSet(V []int, c int) bool {
+	for _, v := range V {
+		if v == c {
+			return true
+		}
+	}
+	return false
 }
 
 func newRefDag(n int) *refDag {
-	return &refDag{n: n, byCI: make([][]int, n), coords: true}
+	all := make([]int, n)
+	for i := range all {
+		all[i] = i
+	}
+	return &refDag{n: n, byCI: make([][]int, n), coords: true, all: all}
 }
 
 func refSuperMajority(n int) int { return 2*n/3 + 1 }
@@ -79,17 +105,19 @@ func (d *refDag) add(creator, selfP, otherP int, hash string) int {
 	if pr >= 0 {
 		r = pr
 		ss := 0
-		for _, w := range d.wits[pr] {
-			if d.stronglySees(id, w) {
-				ss++
+		if pr < len(d.wits) {
+			for _, w := range d.wits[pr] {
+				if d.stronglySees(id, w) {
+					ss++
+				}
 			}
 		}
-		if ss >= refSuperMajority(d.n) {
+		if ss >= refSuperMajority(len(d.setOf(pr))) {
 			r = pr + 1
 		}
 	}
 	d.round = append(d.round, r)
-	wit := selfP < 0 || d.round[selfP] < r
+	wit := (selfP < 0 || d.round[selfP] < r) && inSet(d.setOf(r), creator)
 	d.witness = append(d.witness, wit)
 	if wit {
 		for len(d.wits) <= r {
@@ -105,7 +133,7 @@ func (d *refDag) sees(y, x int) bool { return int(d.la[y][d.creator[x]]) >= d.in
 // stronglySees: more than two thirds of the validators have an event on a
 // path from w to y.
 func (d *refDag) stronglySees(y, w int) bool {
-	return d.pathCount(y, w) >= refSuperMajority(d.n)
+	return d.pathCount(y, w) >= refSuperMajority(len(d.setOf(d.round[w])))
 }
 
 // coordCount is pathCount as babble's event coordinates compute it: the walk
@@ -116,7 +144,7 @@ func (d *refDag) stronglySees(y, w int) bool {
 func (d *refDag) coordCount(y, w int) int {
 	q := d.creator[w]
 	cnt := 0
-	for c := 0; c < d.n; c++ {
+	for _, c := range d.setOf(d.round[w]) {
 		k := int(d.la[y][c])
 		if k < 0 || !d.sees(d.byCI[c][k], w) {
 			continue
@@ -148,7 +176,7 @@ func (d *refDag) pathCount(y, w int) int {
 		return d.coordCount(y, w)
 	}
 	cnt := 0
-	for c := 0; c < d.n; c++ {
+	for _, c := range d.setOf(d.round[w]) {
 		k := d.la[y][c]
 		if k < 0 {
 			continue
@@ -176,12 +204,14 @@ type refNear struct {
 }
 
 type refFame struct {
-	fame     map[int]int // witness id -> 1 famous, -1 not famous (absent: undecided)
-	deciders map[int][]refDecision
-	nears    []refNear
-	coin     map[int]bool // decisions that depended on a coin flip
-	dissent  [][2]int     // (x, y): y votes against a decision taken in its own round (deep mode)
-	score    float64      // how close the history comes to a strong contrary vote (search gradient)
+	fame      map[int]int // witness id -> 1 famous, -1 not famous (absent: undecided)
+	deciders  map[int][]refDecision
+	nears     []refNear
+	coin      map[int]bool  // decisions that depended on a coin flip
+	dissent   [][2]int      // (x, y): y votes against a decision taken in its own round (deep mode)
+	weak      []refDecision // decisions on fewer votes than two thirds of the voters' set (set shrank between the rounds)
+	conflicts [][3]int      // (x, y, z): y and z decide differently about x and z descends from no decider of y's round (deep mode)
+	score     float64       // how close the history comes to a strong contrary vote (search gradient)
 }
 
 // computeFame runs virtual voting over the whole DAG. coinFreq is the
@@ -189,7 +219,6 @@ type refFame struct {
 // witnesses whose fame depends on a coin are left undecided).
 func (d *refDag) computeFame(coinFreq int, middle func(string) bool) *refFame {
 	res := &refFame{fame: map[int]int{}, deciders: map[int][]refDecision{}, coin: map[int]bool{}}
-	sm := refSuperMajority(d.n)
 	type cand struct {
 		y      int
 		v      bool
@@ -200,10 +229,60 @@ func (d *refDag) computeFame(coinFreq int, middle func(string) bool) *refFame {
 		for _, x := range d.wits[r] {
 			votes := map[int]bool{}
 			tainted := false
+			decidedAt := -1
 			var lops []cand
 		LOOP:
 			for j := r + 1; j < len(d.wits); j++ {
 				diff := j - r
+				// The votes are cast by the witnesses of round j-1: a decision needs more
+				// than two thirds of that round's set (and of round j's). weakQuorum
+				// (steering only) takes round j's set alone, which stops binding the
+				// other witnesses of round j when the set shrinks between the rounds.
+				smp := refSuperMajority(len(d.setOf(j - 1))) // also the strongly-see threshold
+				sm := refSuperMajority(len(d.setOf(j)))
+				if smp > sm && !d.weakQuorum {
+					sm = smp
+				}
+				if decidedAt >= 0 {
+					// deep mode, one round past the first decision: does a witness that
+					// descends from no decider decide the opposite?
+					v0 := res.deciders[x][0].v
+					for _, z := range d.wits[j] {
+						indep := true
+						for _, dz := range res.deciders[x] {
+							if d.sees(z, dz.y) {
+								indep = false
+							}
+						}
+						yays, nays := 0, 0
+						for _, w := range d.wits[j-1] {
+							if d.pathCount(z, w) >= smp {
+								if votes[w] {
+									yays++
+								} else {
+									nays++
+								}
+							}
+						}
+						against := nays
+						if !v0 {
+							against = yays
+						}
+						vv := yays >= nays
+						if !indep || diff%coinFreq == 0 {
+							continue
+						}
+						g := 8 + 3*float64(against)/float64(sm)
+						if vv != v0 && maxInt(yays, nays) >= sm {
+							res.conflicts = append(res.conflicts, [3]int{x, res.deciders[x][0].y, z})
+							g = 30
+						}
+						if g > res.score {
+							res.score = g
+						}
+					}
+					break
+				}
 				for _, y := range d.wits[j] {
 					if diff == 1 {
 						votes[y] = d.sees(y, x)
@@ -212,16 +291,16 @@ func (d *refDag) computeFame(coinFreq int, middle func(string) bool) *refFame {
 					yays, nays := 0, 0
 					minYes, minNo := 99, 99
 					for _, w := range d.wits[j-1] {
-						if pc := d.pathCount(y, w); pc >= sm {
+						if pc := d.pathCount(y, w); pc >= smp {
 							if votes[w] {
 								yays++
-								if pc-sm < minYes {
-									minYes = pc - sm
+								if pc-smp < minYes {
+									minYes = pc - smp
 								}
 							} else {
 								nays++
-								if pc-sm < minNo {
-									minNo = pc - sm
+								if pc-smp < minNo {
+									minNo = pc - smp
 								}
 							}
 						}
@@ -234,6 +313,9 @@ func (d *refDag) computeFame(coinFreq int, middle func(string) bool) *refFame {
 						votes[y] = v
 						if t >= sm {
 							res.deciders[x] = append(res.deciders[x], refDecision{x, y, v, t})
+							if t < smp {
+								res.weak = append(res.weak, refDecision{x, y, v, t})
+							}
 						} else if t >= 2 && !tainted {
 							// a majority (or a tie) among the votes collected, short of the quorum
 							ex := minNo
@@ -255,7 +337,7 @@ func (d *refDag) computeFame(coinFreq int, middle func(string) bool) *refFame {
 					}
 				}
 				if len(res.deciders[x]) > 0 {
-					if d.deep {
+					if d.deep && !tainted {
 						// unanimity lemma: once some witness of round j has decided v, every
 						// witness of round j votes v, hence every later vote is v
 						v0 := res.deciders[x][0].v
@@ -267,8 +349,24 @@ func (d *refDag) computeFame(coinFreq int, middle func(string) bool) *refFame {
 						for _, dz := range res.deciders[x] {
 							if dz.v != v0 {
 								res.dissent = append(res.dissent, [2]int{x, dz.y})
+								res.conflicts = append(res.conflicts, [3]int{x, res.deciders[x][0].y, dz.y})
 							}
 						}
+						// gradient: a decision taken on fewer votes than two thirds of the
+						// voters' set, with dissenting witnesses beside it
+						if len(res.weak) > 0 && res.weak[len(res.weak)-1].x == x {
+							g := 5.0
+							for _, y := range d.wits[j] {
+								if votes[y] != v0 {
+									g += 0.5
+								}
+							}
+							if g > res.score {
+								res.score = g
+							}
+						}
+						decidedAt = j
+						continue
 					}
 					break
 				}
@@ -277,7 +375,7 @@ func (d *refDag) computeFame(coinFreq int, middle func(string) bool) *refFame {
 			// search gradient
 			for _, l := range lops {
 				sc := 1 + float64(l.t)/float64(l.ss)
-				if l.ss == sm {
+				if l.ss == refSuperMajority(len(d.setOf(d.round[l.y]))) {
 					sc += 0.2
 				} else if l.excess < 99 {
 					sc += 0.1 / float64(1+l.excess)
@@ -448,13 +546,26 @@ func climbPlays(r *RNG, n int, plays []synthPlay, iters int, coinFreq int, want 
 	cur := append([]synthPlay{}, plays...)
 	best := eval(cur)
 	for it := 0; it < iters && !want(best); it++ {
+		cand := mutatePlays(r, n, n, cur)
+		f := eval(cand)
+		if f.score >= best.score {
+			cur, best = cand, f
+		}
+	}
+	return cur, best
+}
+
+// mutatePlays applies one to three random local edits to a copy of a play list
+// (the first keep plays are left alone).
+func mutatePlays(r *RNG, n, keep int, cur []synthPlay) []synthPlay {
+	{
 		cand := append([]synthPlay{}, cur...)
 		edits := 1 + r.Intn(3)
 		for e := 0; e < edits; e++ {
-			if len(cand) <= n+2 {
+			if len(cand) <= keep+2 {
 				break
 			}
-			i := n + r.Intn(len(cand)-n)
+			i := keep + r.Intn(len(cand)-keep)
 			switch r.Intn(5) {
 			case 0:
 				cand[i].creator = r.Intn(n)
@@ -476,10 +587,6 @@ func climbPlays(r *RNG, n int, plays []synthPlay, iters int, coinFreq int, want 
 				cand[i].other = (cand[i].other + 1) % n
 			}
 		}
-		f := eval(cand)
-		if f.score >= best.score {
-			cur, best = cand, f
-		}
+		return cand
 	}
-	return cur, best
 }
